@@ -92,6 +92,66 @@ for trial in range(400):
         fails += 1
         if fails <= 5:
             print(f'bs={bs} wait={wait} end={end!r} arrivals={arrivals}\n   got  {got}\n   want {want}')
+# ---- elements whose == / truthiness is unusual (with the DEFAULT end marker None only identity can tell the marker from an element)
+class Anything:
+    """compares equal to everything (like unittest.mock.ANY)"""
+    def __eq__(self, other):
+        return True
+    def __ne__(self, other):
+        return False
+    __hash__ = None
+
+
+class Vec:
+    """array-like: == gives an element-wise result whose truth value is ambiguous"""
+    def __init__(self, *xs):
+        self.xs = xs
+    def __eq__(self, other):
+        return Vec(*[x == other for x in self.xs])
+    def __bool__(self):
+        raise ValueError('the truth value of a Vec is ambiguous')
+    __hash__ = None
+
+
+odd = [0, '', [], False, 0.0, Anything(), Vec(1, 2), (), Anything(), Vec()]
+for bs, wait in ((1, 0), (3, 0), (3, 1.0), (4, 0.5)):
+    arrivals = [(0.2 * k, x) for k, x in enumerate(odd)] + [(0.2 * len(odd) + 0.1, None)]
+    Clock.now = 0.0
+    try:
+        got = [x for b in EagerBatcher(ScriptQueue(arrivals), batch_size=bs, batch_wait_time=wait) for x in b]
+    except BaseException as e:      # noqa: BLE001
+        got = ('ERR', type(e).__name__, str(e))
+    if not (isinstance(got, list) and len(got) == len(odd) and all(a is b for a, b in zip(got, odd))):
+        fails += 1
+        print(f'odd elements, bs={bs} wait={wait}: the batches do not partition the input: {got!r}')
+
+# ---- a ResponsiveQueue as the instream (its get polls a stop event in slices): get(timeout=0) must poll once and give up, not wait for the next arrival
+import mpservice.queue as Q
+
+
+class SlicedScriptQueue(ScriptQueue):
+    def get(self, block=True, timeout=None):
+        return super().get(block, timeout)
+
+
+Q.perf_counter = lambda: Clock.now
+for bs, wait in ((3, 0), (3, 1.0), (2, 0.5)):
+    arrivals = [(0.0, 'a'), (3.0, 'b'), (3.1, 'c'), (9.0, None)]
+    Clock.now = 0.0
+    want = reference(arrivals, bs, wait, None)
+    Clock.now = 0.0
+    import threading as _th
+    rq = Q.ResponsiveQueue(SlicedScriptQueue(arrivals), _th.Event(), wait_interval_seconds=0.25)
+    got = []
+    try:
+        for b in EagerBatcher(rq, batch_size=bs, batch_wait_time=wait):
+            got.append((Clock.now, list(b)))
+    except BaseException as e:      # noqa: BLE001
+        got.append(('ERR', type(e).__name__, str(e)))
+    if got != want:
+        fails += 1
+        print(f'ResponsiveQueue instream, bs={bs} wait={wait}:\n   got  {got}\n   want {want}')
+
 if EagerBatcher(ScriptQueue([(0, None)]), batch_size=3)._batch_wait_time != 60 or EagerBatcher(ScriptQueue([(0, None)]), batch_size=1)._batch_wait_time != 0 \
         or EagerBatcher(ScriptQueue([(0, None)]), batch_size=3, batch_wait_time=0)._batch_wait_time != 0:
     print('default wait time wrong'); fails += 1
